@@ -46,7 +46,7 @@ ASSUMPTIONS = [
     "channel order and gains are taken from the reader itself (they are C01's subject, not C11's)",
     "reads through an already-open OnlineReader of frames appended after it was opened are not demanded",
 ]
-SIM_TIME_NOTE = "simulated acquisition time = frames written by the writer stub / sampling rate"
+SIM_TIME_NOTE = "simulated time = acquisition time of the frames the writer stub produced (frames / sampling rate) + the gaps by which the virtual clock advanced between the phases of each run"
 
 FIXS = ["NP24", "NP24_int", "NP21", "NP1"]
 TRACED = {"__init__", "open", "ns", "shape", "rl"}
@@ -347,7 +347,7 @@ def _run(plan, root):
     log.append(["open", plan["reader"], B0, B1, state["grown_at"], type(err).__name__ if err else "ok"])
     if state["grown_at"]:
         probe("file_grew_between_traced_lines")
-    stats["sim_time"] = (B1 // frame) / fs
+    stats["sim_time"] = (B1 // frame) / fs + sum(plan.get("clock_gaps") or [])      # acquisition time written + simulated time that passed between the phases
 
     mf = plan.get("meta_fields", "complete")
     sigbase = f"{plan['reader']}:{plan['form']}:{plan['meta']}" + ("" if dt == np.dtype("int16") else f":{dt.name}") + (f"({mf})" if mf != "complete" and plan["meta"] != "none" else "") + (":two-phase" if two_phase else "")
